@@ -5,7 +5,7 @@ from .common import cssutils, init, outcome
 import cssutils.css as css
 from cssutils.stylesheets import MediaList, MediaQuery
 
-SHEET_TEXT = ('@namespace p "u";\n/*c*/\na, p|b { left: 0; top: 1px !important }\n'
+SHEET_TEXT = ('@namespace p "u";\n@variables { c: red }\n/*c*/\na, p|b { left: 0; top: 1px !important }\ne { color: var(c) }\n'
               '@media print, tv { c { left: 0 } d { top: 0 } }\n@page :first { margin: 0; @top-left { left: 0 } }\n'
               '@font-face { font-family: x }\n@x y;\n')
 SHEET_IMPORT = '@charset "utf-8";\n@import "x.css" print, tv;\n@variables { a: 1 }\na { left: 0 }\n'
@@ -62,8 +62,12 @@ def lists(obj):
         add("prefix", lambda: (obj.prefix, obj.namespaceURI))
     if isinstance(obj, css.Property):
         add("prop", lambda: (obj.name, obj.value, obj.priority))
+    if isinstance(obj, css.CSSVariablesDeclaration):
+        add("vars", lambda: [(k, obj.getVariableValue(k)) for k in obj.keys()])
     if hasattr(obj, "variables") and not hasattr(obj, "cssRules"):
         add("vars", lambda: [(k, obj.variables[k]) for k in obj.variables.keys()])
+    if isinstance(obj, css.CSSStyleSheet):
+        add("sheetvars", lambda: [(k, obj.variables[k]) for k in obj.variables.keys()])
     return res
 
 
@@ -140,6 +144,7 @@ def build(cell):
         "property": lambda: css.Property("left", "1px", "important") if pop else css.Property(),
         "value": lambda: css.PropertyValue(cssText="1px solid red" if pop else None, **k),
         "selectorlist": lambda: css.SelectorList(selectorText="a, b" if pop else None, **k),
+        "variablesdecl": lambda: css.CSSVariablesDeclaration(cssText="a: 1; z: 2" if pop else "", **k),
         "selector": lambda: css.Selector(selectorText="a b" if pop else None, **k),
         "medialist": lambda: MediaList(mediaText="print, tv" if pop else None, **k),
         "mediaquery": lambda: MediaQuery(mediaText="print and (color)" if pop else None, **k),
@@ -209,6 +214,16 @@ BAD = {
     ("value", "cssText"): {"immediate": "}", "late": "2px }", "nested": "f(2px, }"},
     ("selectorlist", "selectorText"): {"immediate": ",", "late": "x, $", "nested": "x, y:not(", "hierarchy": "zz|x"},
     ("selectorlist", "appendSelector"): {"immediate": "$", "late": "x, y", "nested": "y:not(", "hierarchy": "zz|x"},
+    ("selectorlist", "setitem"): {"immediate": (0, "$"), "nested": (0, "y:not("), "hierarchy": (0, "zz|x"), "index": (9, "x")},
+    ("selectorlist", "append"): {"immediate": "$", "nested": "y:not(", "hierarchy": "zz|x"},
+    ("declaration", "setitem"): {"immediate": ("bottom", "}"), "late": ("bottom", "1px }"), "nested": ("color", "rgb(")},
+    ("declaration", "attrset"): {"immediate": ("bottom", "}"), "late": ("bottom", "1px }"), "nested": ("color", "rgb(")},
+    ("pagerule", "add"): {"immediate": "$$", "nested": "@top-right { left: }", "hierarchy": "@media print { x { left: 0 } }"},
+    ("pagerule", "deleteRule"): {"index": 99},
+    ("variablesdecl", "cssText"): {"immediate": "}", "late": "b: 2; c: }"},
+    ("variablesdecl", "setVariable"): {"immediate": ("b", "}"), "late": ("b", "2 }")},
+    ("variablesdecl", "setitem"): {"immediate": ("b", "}"), "late": ("b", "2 }")},
+    ("medialist", "append"): {"immediate": "3d", "late": "braille and", "nested": "screen and (color"},
     ("selector", "selectorText"): {"immediate": "$", "late": "x y $", "nested": "x:not(", "hierarchy": "zz|x"},
     ("medialist", "mediaText"): {"immediate": "3d", "late": "braille, 3d", "nested": "braille, screen and (color"},
     ("medialist", "appendMedium"): {"immediate": "3d", "late": "braille and", "nested": "screen and (color"},
@@ -231,7 +246,11 @@ GOOD = {  # well-formed inputs, used for read-only targets (only the read-only g
     ("marginrule", "cssText"): "@top-right { top: 0 }", ("marginrule", "margin"): "@top-right", ("marginrule", "styleText"): "top: 0",
     ("declaration", "cssText"): "bottom: 0", ("declaration", "setProperty"): ("bottom", "0"), ("declaration", "setPropertyPriority"): ("bottom", "0", "important"),
     ("declaration", "removeProperty"): "left",
-    ("value", "cssText"): "2px", ("selectorlist", "selectorText"): "x, y", ("selectorlist", "appendSelector"): "y",
+    ("value", "cssText"): "2px", ("selectorlist", "selectorText"): "x, y", ("selectorlist", "appendSelector"): "y", ("selectorlist", "setitem"): (0, "x"),
+    ("selectorlist", "append"): "y", ("declaration", "setitem"): ("bottom", "0"), ("declaration", "attrset"): ("bottom", "0"),
+    ("declaration", "delitem"): "left", ("declaration", "attrdel"): "left", ("pagerule", "add"): "@top-right { left: 0 }", ("pagerule", "deleteRule"): 0,
+    ("variablesdecl", "cssText"): "b: 2", ("variablesdecl", "setVariable"): ("b", "2"), ("variablesdecl", "removeVariable"): "a",
+    ("variablesdecl", "setitem"): ("b", "2"), ("variablesdecl", "delitem"): "a", ("medialist", "append"): "braille", ("medialist", "setitem"): (0, "braille"),
     ("selector", "selectorText"): "x", ("medialist", "mediaText"): "braille", ("medialist", "appendMedium"): "braille",
     ("medialist", "deleteMedium"): "print", ("mediaquery", "mediaText"): "braille", ("mediaquery", "mediaType"): "braille",
 }
@@ -282,6 +301,20 @@ def call(target, cls, mut, arg):
         return outcome(lambda: setattr(t, "priority", arg))
     if mut == "appendSelector":
         return outcome(lambda: t.appendSelector(arg))
+    if mut == "setitem":
+        return outcome(lambda: t.__setitem__(arg[0], arg[1]))
+    if mut == "append":
+        return outcome(lambda: t.append(arg))
+    if mut == "delitem":
+        return outcome(lambda: t.__delitem__(arg))
+    if mut == "attrset":
+        return outcome(lambda: setattr(t, arg[0], arg[1]))
+    if mut == "attrdel":
+        return outcome(lambda: delattr(t, arg))
+    if mut == "setVariable":
+        return outcome(lambda: t.setVariable(arg[0], arg[1]))
+    if mut == "removeVariable":
+        return outcome(lambda: t.removeVariable(arg))
     if mut == "appendMedium":
         return outcome(lambda: t.appendMedium(arg))
     if mut == "deleteMedium":
